@@ -114,3 +114,153 @@ package traversal
 //@   assigns foreign
 //@ interface selector.Reifiable.NamedReifier() (r)
 //@   assigns nothing
+
+// ---- C16: transforms are pure functional updates ----
+//
+// Reference updates of the abstract value, as left folds over the source entries:
+//   mapcp(src, pos)            the first pos entries of src, copied in order;
+//   mapxf(src, pos, t, del, r) the first pos entries of src with entry t deleted (del) or its value replaced by r;
+//   listcp / listxf            the same for lists (no deletion).
+//@ pure func mapcp(src datamodel.Val, pos mathint) datamodel.Val
+//@ pure func mapxf(src datamodel.Val, pos mathint, t mathint, del bool, r datamodel.Val) datamodel.Val
+//@ pure func listcp(src datamodel.Val, pos mathint) datamodel.Val
+//@ pure func listxf(src datamodel.Val, pos mathint, t mathint, r datamodel.Val) datamodel.Val
+//@ axiom mapcp_def: forall src datamodel.Val, pos mathint :: mapcp(src, pos) == (pos <= 0 ? datamodel.vemptymap() : datamodel.vapp(mapcp(src, pos - 1), datamodel.vkey(src, pos - 1), datamodel.vchild(src, pos - 1)))
+//@ axiom mapxf_def: forall src datamodel.Val, pos mathint, t mathint, del bool, r datamodel.Val :: mapxf(src, pos, t, del, r) == (pos <= t ? mapcp(src, pos) : (pos == t + 1 ? (del ? mapcp(src, t) : datamodel.vapp(mapcp(src, t), datamodel.vkey(src, t), r)) : datamodel.vapp(mapxf(src, pos - 1, t, del, r), datamodel.vkey(src, pos - 1), datamodel.vchild(src, pos - 1))))
+//@ axiom listcp_def: forall src datamodel.Val, pos mathint :: listcp(src, pos) == (pos <= 0 ? datamodel.vemptylist() : datamodel.vappl(listcp(src, pos - 1), datamodel.vchild(src, pos - 1)))
+//@ axiom listxf_def: forall src datamodel.Val, pos mathint, t mathint, r datamodel.Val :: listxf(src, pos, t, r) == (pos <= t ? listcp(src, pos) : (pos == t + 1 ? datamodel.vappl(listcp(src, t), r) : datamodel.vappl(listxf(src, pos - 1, t, r), datamodel.vchild(src, pos - 1))))
+
+// A transform callback may allocate and may run nested traversals on the Progress it is given
+// (budgets), but does not touch assemblers it was not handed.
+//@ functype TransformFn(prog, n) (r, err)
+//@   assigns foreign, prog.Budget.NodeBudget, prog.Budget.LinkBudget
+
+// Map keys are data-model strings (typed keys are compared through their representation, assumed
+// to carry the same string).
+//@ interface schema.TypedNode.Representation() (r)
+//@   assigns nothing
+//@   ensures r != nil && r.val == recv.val
+//@ func asPathSegment(n) (r)
+//@   requires n != nil && datamodel.vkind(n.val) == datamodel.Kind_String
+//@   assigns nothing
+//@   ensures[C16] r.i < 0 && r.s == datamodel.vstr(n.val)
+
+//@ pred wfxprog(prog Progress) = prog.Cfg != nil && prog.Cfg.LinkTargetNodePrototypeChooser != nil
+//@   && prog.Cfg.LinkSystem.DecoderChooser != nil && prog.Cfg.LinkSystem.HasherChooser != nil && prog.Cfg.LinkSystem.EncoderChooser != nil
+
+//@ func (Progress).focusedTransform(n, na, p, fn, createParents) (err)
+//@   requires wfxprog(prog) && na != nil && fn != nil
+//@   assigns foreign, prog.Budget.NodeBudget, prog.Budget.LinkBudget, datamodel.slot(na), ghostall("io.Reader.pos"), ghostall("io.Writer.fed"), ghostall("io.Writer.fedof"), ghostall("linking.BlockWriteCommitter.calls")
+//   the callback sees the node currently at the target; its result is what is assigned
+//@   before fn@0 assert[C16] carg1 == n && len(p.segments) == 0
+//@   before fn@1 assert[C16] carg1 == n3 && len(p.segments) == 1
+//@   before fn@1 assert[C16] err == nil ==> carg1.val == datamodel.vchild(n.val, datamodel.vidx(n.val, datamodel.segstr(p.segments[0])))
+//@   before AssignNode@0 assert[C16] carg1 == n2
+//@   before AssignNode assert[C16] carg1 != nil
+//   the recursion descends into exactly the child on the path, with the rest of the path
+//@   before focusedTransform@0 assert[C16] carg1 == nil && carg3 == p2 && carg4 == fn && carg5 == createParents
+//@   before focusedTransform@1 assert[C16] carg1 == v && carg3 == p2 && carg4 == fn && carg5 == createParents
+//@   before focusedTransform@2 assert[C16] carg1 == nil && carg3 == p2 && carg4 == fn && carg5 == createParents
+//@   before focusedTransform@3 assert[C16] carg1 == v && carg3 == p2 && carg4 == fn && carg5 == createParents
+//@   before focusedTransform@4 assert[C16] carg1 == nil && carg3 == p2 && carg4 == fn && carg5 == createParents
+//@   before focusedTransform@5 assert[C16] carg1 == n && carg2 == nb && carg3 == p && carg4 == fn && carg5 == createParents
+//   across a link: the transformed block is stored under the old link's prototype and the new link assigned
+//@   before Fill assert[C16] carg2 == lnk && carg3 == nb
+//@   before Store assert[C16] carg2 == linking.protoOf(lnk.lid) && nb.set && carg3.val == nb.out
+//@   before AssignLink assert[C16] carg1 == lnk && lnk != nil
+//@   ensures[C16] err == nil ==> datamodel.slotdone(na, na.out)
+//@   ensures[C16] err == nil && len(p.segments) > 0 && n == nil ==> na.out == datamodel.vapp(datamodel.vemptymap(), datamodel.vstring(datamodel.segstr(p.segments[0])), datamodel.vchild(na.out, 0))
+//@   ensures[C16] err == nil && len(p.segments) > 0 && n != nil && datamodel.vkind(n.val) == datamodel.Kind_Map && 0 <= datamodel.vidx(n.val, datamodel.segstr(p.segments[0])) && datamodel.vidx(n.val, datamodel.segstr(p.segments[0])) < datamodel.vlen(n.val)
+//@     ==> na.out == mapxf(n.val, datamodel.vlen(n.val), datamodel.vidx(n.val, datamodel.segstr(p.segments[0])), false, datamodel.vchild(na.out, datamodel.vidx(n.val, datamodel.segstr(p.segments[0]))))
+//@      || (len(p.segments) == 1 && na.out == mapxf(n.val, datamodel.vlen(n.val), datamodel.vidx(n.val, datamodel.segstr(p.segments[0])), true, datamodel.vnullv()))
+//@   ensures[C16] err == nil && len(p.segments) > 0 && n != nil && datamodel.vkind(n.val) == datamodel.Kind_Map && !(0 <= datamodel.vidx(n.val, datamodel.segstr(p.segments[0])) && datamodel.vidx(n.val, datamodel.segstr(p.segments[0])) < datamodel.vlen(n.val))
+//@     ==> na.out == datamodel.vapp(mapcp(n.val, datamodel.vlen(n.val)), datamodel.vstring(datamodel.segstr(p.segments[0])), datamodel.vchild(na.out, datamodel.vlen(n.val))) && (createParents || len(p.segments) == 1)
+//@   ensures[C16] err == nil && len(p.segments) > 0 && n != nil && datamodel.vkind(n.val) == datamodel.Kind_List && datamodel.segidxok(p.segments[0]) && 0 <= datamodel.segidx(p.segments[0]) && datamodel.segidx(p.segments[0]) < datamodel.vlen(n.val)
+//@     ==> na.out == listxf(n.val, datamodel.vlen(n.val), datamodel.segidx(p.segments[0]), datamodel.vchild(na.out, datamodel.segidx(p.segments[0])))
+//@   ensures[C16] err == nil && len(p.segments) > 0 && n != nil && datamodel.vkind(n.val) == datamodel.Kind_List && !(datamodel.segidxok(p.segments[0]) && 0 <= datamodel.segidx(p.segments[0]) && datamodel.segidx(p.segments[0]) < datamodel.vlen(n.val))
+//@     ==> na.out == datamodel.vappl(listcp(n.val, datamodel.vlen(n.val)), datamodel.vchild(na.out, datamodel.vlen(n.val))) && (datamodel.segidxok(p.segments[0]) ? datamodel.segidx(p.segments[0]) < 0 : datamodel.segstr(p.segments[0]) == "-")
+//@   ensures[C16] err == nil && len(p.segments) > 0 && n != nil && datamodel.vkind(n.val) == datamodel.Kind_Link ==> datamodel.vkind(na.out) == datamodel.Kind_Link
+//@   ensures[C16] len(p.segments) > 0 && n != nil && datamodel.vkind(n.val) != datamodel.Kind_Map && datamodel.vkind(n.val) != datamodel.Kind_List && datamodel.vkind(n.val) != datamodel.Kind_Link ==> err != nil
+//@   loop 0 assigns foreign, prog.Budget.NodeBudget, prog.Budget.LinkBudget, prog.Path, itr.pos, ma.acc, ma.pend, ma.haskey, ghostall("io.Reader.pos"), ghostall("io.Writer.fed"), ghostall("io.Writer.fedof"), ghostall("linking.BlockWriteCommitter.calls")
+//@   loop 0 invariant itr != nil && itr.src == n.val && 0 <= itr.pos && itr.pos <= datamodel.vlen(n.val) && ma != nil && ma.slot == na && !ma.haskey && (n2 != nil ==> end)
+//@   loop 0 invariant !replaced ==> ma.acc == mapcp(n.val, itr.pos) && datamodel.vlen(ma.acc) == itr.pos && !(0 <= datamodel.vidx(n.val, datamodel.segstr(seg)) && datamodel.vidx(n.val, datamodel.segstr(seg)) < itr.pos)
+//@   loop 0 invariant replaced ==> 0 <= datamodel.vidx(n.val, datamodel.segstr(seg)) && datamodel.vidx(n.val, datamodel.segstr(seg)) < itr.pos
+//@   loop 0 invariant replaced && end && n2 == nil ==> ma.acc == mapxf(n.val, itr.pos, datamodel.vidx(n.val, datamodel.segstr(seg)), true, datamodel.vnullv())
+//@   loop 0 invariant replaced && !(end && n2 == nil) ==> datamodel.vlen(ma.acc) == itr.pos && ma.acc == mapxf(n.val, itr.pos, datamodel.vidx(n.val, datamodel.segstr(seg)), false, datamodel.vchild(ma.acc, datamodel.vidx(n.val, datamodel.segstr(seg))))
+//@   loop 1 assigns foreign, prog.Budget.NodeBudget, prog.Budget.LinkBudget, prog.Path, itr.pos, la.acc, ghostall("io.Reader.pos"), ghostall("io.Writer.fed"), ghostall("io.Writer.fedof"), ghostall("linking.BlockWriteCommitter.calls")
+//@   loop 1 invariant itr != nil && itr.src == n.val && 0 <= itr.pos && itr.pos <= datamodel.vlen(n.val) && la != nil && la.slot == na
+//@   loop 1 invariant !replaced ==> la.acc == listcp(n.val, itr.pos) && datamodel.vlen(la.acc) == itr.pos && !(0 <= ti && ti < itr.pos)
+//@   loop 1 invariant replaced ==> 0 <= ti && ti < itr.pos && datamodel.vlen(la.acc) == itr.pos && la.acc == listxf(n.val, itr.pos, ti, datamodel.vchild(la.acc, ti))
+
+// ---- C16: the walking transform ----
+
+//@ func (*Config).init()
+//@   requires tc != nil
+//@   assigns tc.Ctx, tc.LinkTargetNodePrototypeChooser
+//@   ensures tc.LinkTargetNodePrototypeChooser != nil && (old(tc.LinkTargetNodePrototypeChooser) != nil ==> tc.LinkTargetNodePrototypeChooser == old(tc.LinkTargetNodePrototypeChooser))
+//@ func (*Progress).init()
+//@   requires prog != nil
+//@   assigns prog.Cfg, prog.SeenLinks, prog.Cfg.Ctx, prog.Cfg.LinkTargetNodePrototypeChooser
+//@   ensures prog.Cfg != nil && prog.Cfg.LinkTargetNodePrototypeChooser != nil && (old(prog.Cfg) != nil ==> prog.Cfg == old(prog.Cfg))
+//@   ensures old(prog.Cfg) != nil && old(prog.Cfg.LinkTargetNodePrototypeChooser) != nil ==> prog.Cfg.LinkTargetNodePrototypeChooser == old(prog.Cfg.LinkTargetNodePrototypeChooser)
+//@   ensures prog.Cfg.LinkVisitOnlyOnce ==> prog.SeenLinks != nil && fresh(prog.SeenLinks)
+//@   ensures !prog.Cfg.LinkVisitOnlyOnce ==> prog.SeenLinks == old(prog.SeenLinks)
+
+//@ func contains(interest, candidate) (r)
+//@   assigns nothing
+//@   loop 0 invariant 0 - 1 <= rangeindex && rangeindex < len(interest)
+
+//@ func (Progress).WalkTransforming(n, s, fn) (r, err)
+//@   requires wfprog(prog) && n != nil && s != nil && fn != nil
+//@   assigns foreign, prog.Cfg.Ctx, prog.Cfg.LinkTargetNodePrototypeChooser, prog.Budget.NodeBudget, prog.Budget.LinkBudget, map(prog.SeenLinks), ghostall("io.Reader.pos"), ghostall("io.Writer.fed"), ghostall("io.Writer.fedof"), ghostall("linking.BlockWriteCommitter.calls")
+//@   ensures prog.Cfg.LinkTargetNodePrototypeChooser == old(prog.Cfg.LinkTargetNodePrototypeChooser)
+//@   before walkTransforming assert[C16] carg1 == n && carg2 == s && carg3 == fn && carg0.Path == prog.Path && carg0.Budget == prog.Budget
+
+//@ func (Progress).walkTransforming(n, s, fn) (r, err)
+//@   requires wfprog(prog) && n != nil && s != nil && fn != nil
+//@   assigns foreign, prog.Cfg.Ctx, prog.Cfg.LinkTargetNodePrototypeChooser, prog.Budget.NodeBudget, prog.Budget.LinkBudget, map(prog.SeenLinks), ghostall("io.Reader.pos"), ghostall("io.Writer.fed"), ghostall("io.Writer.fedof"), ghostall("linking.BlockWriteCommitter.calls")
+//@   ensures prog.Cfg.LinkTargetNodePrototypeChooser == old(prog.Cfg.LinkTargetNodePrototypeChooser)
+//   the callback sees the node at the current position; a changed node replaces it, an unchanged
+//   one is walked further with the same selector
+//@   before fn assert[C16] carg1 == n && carg0 == prog
+//@   before walk_transform_iterateList assert[C16] carg1 == n && carg2 == s && carg3 == fn
+//@   before walk_transform_iterateMap assert[C16] carg1 == n && carg2 == s && carg3 == fn
+
+//@ func (Progress).walk_transform_iterateList(n, s, fn, attn) (r, err)
+//@   requires wfprog(prog) && n != nil && s != nil && fn != nil && datamodel.vkind(n.val) == datamodel.Kind_List
+//@   assigns foreign, prog.Cfg.Ctx, prog.Cfg.LinkTargetNodePrototypeChooser, prog.Budget.NodeBudget, prog.Budget.LinkBudget, map(prog.SeenLinks), ghostall("io.Reader.pos"), ghostall("io.Writer.fed"), ghostall("io.Writer.fedof"), ghostall("linking.BlockWriteCommitter.calls")
+//@   ensures prog.Cfg.LinkTargetNodePrototypeChooser == old(prog.Cfg.LinkTargetNodePrototypeChooser)
+//   an unexplored child is copied as it is; an explored child is replaced by the transform of
+//   that child, walked with the selector Explore returned, one path segment deeper
+//@   before AssignNode if next assert[C16] carg1 == next
+//@   before AssignNode if next assert[C16] carg1 != nil
+//@   before AssignNode if next assert[C16] datamodel.vkind(datamodel.vchild(n.val, itr.pos - 1)) != datamodel.Kind_Link
+//@   before AssignNode ifnot next assert[C16] carg1.val == datamodel.vchild(n.val, itr.pos - 1)
+//@   before WalkTransforming assert[C16] carg2 == sNext && sNext != nil && carg3 == fn && len(carg0.Path.segments) == len(prog.Path.segments) + 1 && carg0.Path.segments[len(prog.Path.segments)] == ps
+//@   before WalkTransforming assert[C16] datamodel.vkind(datamodel.vchild(n.val, itr.pos - 1)) != datamodel.Kind_Link ==> carg1.val == datamodel.vchild(n.val, itr.pos - 1)
+//@   before Explore assert[C16] carg1 == n && carg2 == ps
+//@   ensures[C16] err == nil ==> r != nil && datamodel.vlen(r.val) == datamodel.vlen(n.val)
+//@   loop 0 assigns foreign, prog.Cfg.Ctx, prog.Cfg.LinkTargetNodePrototypeChooser, prog.Budget.NodeBudget, prog.Budget.LinkBudget, map(prog.SeenLinks), itr.pos, lstBldr.acc, ghostall("io.Reader.pos"), ghostall("io.Writer.fed"), ghostall("io.Writer.fedof"), ghostall("linking.BlockWriteCommitter.calls")
+//@   loop 0 invariant itr != nil && itr.src == n.val && 0 <= itr.pos && itr.pos <= datamodel.vlen(n.val) && lstBldr != nil && lstBldr.slot == bldr && bldr.role == 0
+//@   loop 0 invariant datamodel.vlen(lstBldr.acc) == itr.pos
+//@   loop 0 invariant prog.Cfg == old(prog.Cfg) && prog.Cfg.LinkTargetNodePrototypeChooser == old(prog.Cfg.LinkTargetNodePrototypeChooser) && prog.Budget == old(prog.Budget) && prog.SeenLinks == old(prog.SeenLinks) && prog.Path == old(prog.Path)
+
+//@ func (Progress).walk_transform_iterateMap(n, s, fn, attn) (r, err)
+//@   requires wfprog(prog) && n != nil && s != nil && fn != nil && datamodel.vkind(n.val) == datamodel.Kind_Map
+//@   assigns foreign, prog.Cfg.Ctx, prog.Cfg.LinkTargetNodePrototypeChooser, prog.Budget.NodeBudget, prog.Budget.LinkBudget, map(prog.SeenLinks), ghostall("io.Reader.pos"), ghostall("io.Writer.fed"), ghostall("io.Writer.fedof"), ghostall("linking.BlockWriteCommitter.calls")
+//@   ensures prog.Cfg.LinkTargetNodePrototypeChooser == old(prog.Cfg.LinkTargetNodePrototypeChooser)
+//@   before AssignString assert[C16] carg1 == datamodel.vkeystr(n.val, itr.pos - 1)
+//@   before AssignNode if next assert[C16] carg1 == next
+//@   before AssignNode if next assert[C16] carg1 != nil
+//@   before AssignNode if next assert[C16] datamodel.vkind(datamodel.vchild(n.val, itr.pos - 1)) != datamodel.Kind_Link
+//@   before AssignNode ifnot next assert[C16] carg1.val == datamodel.vchild(n.val, itr.pos - 1)
+//@   before WalkTransforming assert[C16] carg2 == sNext && sNext != nil && carg3 == fn && len(carg0.Path.segments) == len(prog.Path.segments) + 1 && carg0.Path.segments[len(prog.Path.segments)] == ps
+//@   before WalkTransforming assert[C16] datamodel.vkind(datamodel.vchild(n.val, itr.pos - 1)) != datamodel.Kind_Link ==> carg1.val == datamodel.vchild(n.val, itr.pos - 1)
+//@   before Explore assert[C16] carg1 == n && carg2 == ps
+//@   ensures[C16] err == nil ==> r != nil && datamodel.vlen(r.val) == datamodel.vlen(n.val)
+//@   ensures[C16] err == nil ==> forall i mathint :: 0 <= i && i < datamodel.vlen(n.val) ==> datamodel.vstr(datamodel.vkey(r.val, i)) == datamodel.vkeystr(n.val, i)
+//@   loop 0 assigns foreign, prog.Cfg.Ctx, prog.Cfg.LinkTargetNodePrototypeChooser, prog.Budget.NodeBudget, prog.Budget.LinkBudget, map(prog.SeenLinks), itr.pos, mapBldr.acc, mapBldr.pend, mapBldr.haskey, ghostall("io.Reader.pos"), ghostall("io.Writer.fed"), ghostall("io.Writer.fedof"), ghostall("linking.BlockWriteCommitter.calls")
+//@   loop 0 invariant itr != nil && itr.src == n.val && 0 <= itr.pos && itr.pos <= datamodel.vlen(n.val) && mapBldr != nil && mapBldr.slot == bldr && bldr.role == 0 && !mapBldr.haskey
+//@   loop 0 invariant datamodel.vlen(mapBldr.acc) == itr.pos
+//@   loop 0 invariant prog.Cfg == old(prog.Cfg) && prog.Cfg.LinkTargetNodePrototypeChooser == old(prog.Cfg.LinkTargetNodePrototypeChooser) && prog.Budget == old(prog.Budget) && prog.SeenLinks == old(prog.SeenLinks) && prog.Path == old(prog.Path)
+//@   loop 0 invariant forall i mathint :: 0 <= i && i < itr.pos ==> datamodel.vstr(datamodel.vkey(mapBldr.acc, i)) == datamodel.vkeystr(n.val, i)
